@@ -21,3 +21,7 @@ Theorem c14_slicequeue_premises_met :
   batch_after false [1; 2; 3]%N [7; 8; 9; 10]%N = ([1; 2; 3]%N, [1; 2; 3]%N).
 Proof. exact stable_case. Qed.
 Print Assumptions c14_slicequeue_premises_met.
+
+Theorem c14_slicequeue_batch_is_what_arrived : forall before after, batch_after false before after = (before, before).
+Proof. exact batch_is_what_arrived. Qed.
+Print Assumptions c14_slicequeue_batch_is_what_arrived.
